@@ -366,3 +366,417 @@ def gen_C18(rng, tier):
 
 
 GENERATORS.update({"C14": gen_C14, "C18": gen_C18})
+
+
+# =========================================================================== stateful streams
+RELATIONS = {}   # pid -> list of (kind, idxA, idxB, extra) consumed by the property's oracle
+
+
+def shift_tok(tok, c):
+    """shift the timestamp of an Output token `S@t@v` by c"""
+    if tok.startswith("S@"):
+        _, t, v = tok.split("@", 2)
+        return "S@%d@%s" % (int(t) + c, v)
+    return tok
+
+
+def history(rng, n, mkval, weights=(0.7, 0.12, 0.09, 0.09), t0=None, dt=None, repeat_ts=False):
+    """n events over {present, absent, E1, E2}; present samples get increasing timestamps"""
+    t = rng.randint(-10 ** 12, 10 ** 12) if t0 is None else t0
+    evs = []
+    for _ in range(n):
+        r = rng.random()
+        if r < weights[0]:
+            if repeat_ts and rng.random() < 0.15:
+                step = 0
+            else:
+                step = dt(rng) if dt else log_dt(rng)
+            t += step
+            evs.append("S@%d@%s" % (t, mkval(rng)))
+        elif r < weights[0] + weights[1]:
+            evs.append("N")
+        elif r < weights[0] + weights[1] + weights[2]:
+            evs.append("E1")
+        else:
+            evs.append("E2")
+    return evs
+
+
+def all_histories(rng, maxlen, mkval):
+    """every interleaving of {S, N, E1, E2} up to maxlen, timestamps increasing by 1 s"""
+    for n in range(1, maxlen + 1):
+        for cats in itertools.product("SN12", repeat=n):
+            t = 0
+            evs = []
+            for c in cats:
+                if c == "S":
+                    t += 1_000_000_000
+                    evs.append("S@%d@%s" % (t, mkval(rng)))
+                else:
+                    evs.append({"N": "N", "1": "E1", "2": "E2"}[c])
+            yield evs
+
+
+def mkq(mm, s):
+    return lambda rng: q(rand_f(rng, -50, 50), mm, s)
+
+
+def mkf(rng):
+    return rand_f(rng, -50, 50)
+
+
+def mkstate(rng):
+    return state(rand_f(rng, -50, 50), rand_f(rng, -50, 50), rand_f(rng, -50, 50))
+
+
+K9 = lambda rng: " ".join(rand_f(rng, -3, 3) for _ in range(9))
+
+# (prefix builder, value maker, events that reset to "fresh", ignores absent?)
+def stateful_specs(rng):
+    return [
+        ("pid", lambda: "ss pid %s %s %s %s" % (mkf(rng), rand_f(rng, -3, 3), rand_f(rng, -3, 3), rand_f(rng, -3, 3)), mkf, ("N", "E"), False),
+        ("cpidP", lambda: "ss cpid P%s %s" % (mkf(rng), K9(rng)), mkstate, ("N", "E"), False),
+        ("cpidV", lambda: "ss cpid V%s %s" % (mkf(rng), K9(rng)), mkstate, ("N", "E"), False),
+        ("cpidA", lambda: "ss cpid A%s %s" % (mkf(rng), K9(rng)), mkstate, ("N", "E"), False),
+        ("ewmaf", lambda: "ss ewma f %s" % f2h(rng.uniform(0, 1)), mkf, ("E",), True),
+        ("ewmaq", lambda: "ss ewma q %s" % f2h(rng.uniform(0, 1)), mkq(1, -1), ("E",), True),
+        ("maf", lambda: "ss ma f %d" % rng.choice([1, 1_500_000_000, 3_000_000_000, 10 ** 12]), mkf, ("E",), True),
+        ("maq", lambda: "ss ma q %d" % rng.choice([1, 1_500_000_000, 3_000_000_000, 10 ** 12]), mkq(1, -1), ("E",), True),
+        ("int", lambda: "ss int", mkq(1, 0), ("N", "E"), False),
+        ("drv", lambda: "ss drv", mkq(1, 0), ("N", "E"), False),
+        ("a2s", lambda: "ss a2s", mkq(1, -2), ("E",), True),
+        ("v2s", lambda: "ss v2s", mkq(1, -1), ("E",), True),
+        ("p2s", lambda: "ss p2s", mkq(1, 0), ("E",), True),
+        ("f2q", lambda: "ss f2q 1,-1", mkf, ("N", "E", "S"), False),
+        ("q2f", lambda: "ss q2f", mkq(2, -1), ("N", "E", "S"), False),
+    ]
+
+
+def wrap_ev(name, ev):
+    return ("in:" + ev) if name.startswith("cpid") else ev
+
+
+def gen_C05(rng, tier):
+    L = []
+    rel = []
+    specs = stateful_specs(rng)
+    maxlen = n_of(tier, 4, 5)
+    for (name, mkprefix, mkval, resets, ignores_absent) in specs:
+        prefix = mkprefix()
+        for evs in all_histories(rng, maxlen, mkval):
+            L.append(prefix + " " + " ".join(wrap_ev(name, e) for e in evs))
+        # random longer histories with their metamorphic companions
+        for _ in range(n_of(tier, 40, 300)):
+            prefix = mkprefix()
+            n = rng.randint(6, 48)
+            evs = history(rng, n, mkval, weights=(0.6, 0.16, 0.12, 0.12))
+            ia = len(L)
+            L.append(prefix + " " + " ".join(wrap_ev(name, e) for e in evs))
+            # suffix from a reset event
+            ks = [k for k, e in enumerate(evs) if k > 0 and ((e == "N" and "N" in resets) or (e[0] == "E" and "E" in resets) or (e[0] == "S" and "S" in resets))]
+            if ks:
+                k = rng.choice(ks)
+                rel.append(("suffix", ia, len(L), k))
+                L.append(prefix + " " + " ".join(wrap_ev(name, e) for e in evs[k:]))
+            if ignores_absent and "N" in evs:
+                keep = [k for k, e in enumerate(evs) if e != "N"]
+                if keep:
+                    rel.append(("absent_deleted", ia, len(L), keep))
+                    L.append(prefix + " " + " ".join(wrap_ev(name, evs[k]) for k in keep))
+    # freeze: all condition histories x input categories
+    CONDS = ["E1", "N", "S@1@true", "S@1@false"]
+    for ty, mk in (("f", mkf), ("q", mkq(1, 0))):
+        for n in range(1, n_of(tier, 4, 5) + 1):
+            for cs in itertools.product(CONDS, repeat=n):
+                evs = []
+                for i, c in enumerate(cs):
+                    inp = rng.choice(["S", "S", "S", "N", "E2"])
+                    inp = out_some(100 + i, mk(rng)) if inp == "S" else inp
+                    evs.append(c + ";" + inp)
+                L.append("ss freeze %s %s" % (ty, " ".join(evs)))
+        for _ in range(n_of(tier, 100, 1000)):
+            evs = []
+            for i in range(rng.randint(5, 48)):
+                c = rng.choice(["S@%d@true" % i, "S@%d@false" % i, "S@%d@false" % i, "N", "E1"]) if rng.random() < 0.3 else rng.choice(["S@%d@true" % i, "S@%d@false" % i])
+                inp = rng.choice(["S", "S", "S", "N", "E2"])
+                inp = out_some(100 + i, mk(rng)) if inp == "S" else inp
+                evs.append(c + ";" + inp)
+            L.append("ss freeze %s %s" % (ty, " ".join(evs)))
+    # regression corpus for the repaired stale-error defect (F1)
+    L.append("ss int E1 S@1000000000@Q:3f800000:1,0 S@2000000000@Q:40000000:1,0")
+    L.append("ss drv E1 S@1000000000@Q:3f800000:1,0 S@2000000000@Q:40000000:1,0")
+    RELATIONS["C05"] = rel
+    return L
+
+
+def get_part(tok):
+    return tok.split("/", 1)[1] if "/" in tok else tok
+
+
+def oracle_C05(lines, impl):
+    """metamorphic checks on the implementation's own outputs + purity + no-stale-error"""
+    bad = []
+    for c, o in zip(lines, impl):
+        if "!impure" in o:
+            bad.append((c, "get() returned different values between updates"))
+        if not c.startswith("ss ") or c.startswith("ss freeze") or "PANIC" in o:
+            continue
+        evs = [e for e in c.split(" ") if e in ("N", "E1", "E2") or e.startswith("S@") or e.startswith("in:")]
+        toks = o.split(" ")
+        if len(evs) != len(toks):
+            continue
+        for e, t in zip(evs, toks):
+            e = e[3:] if e.startswith("in:") else e
+            g = get_part(t)
+            if g in ("E1", "E2", "EN") and e != g:
+                bad.append((c, "stale or foreign error: get()=%s after input event %s" % (g, e)))
+                break
+    for (kind, ia, ib, extra) in RELATIONS.get("C05", []):
+        if ia >= len(impl) or ib >= len(impl):
+            continue
+        A, B = impl[ia].split(" "), impl[ib].split(" ")
+        if "PANIC" in impl[ia] or "PANIC" in impl[ib]:
+            continue
+        if kind == "suffix":
+            k = extra
+            if A[k:] != B:
+                bad.append((lines[ia], "reset does not erase history: outputs after event %d differ from a fresh stream fed the suffix: %s vs %s" % (k, A[k:][:4], B[:4])))
+        elif kind == "absent_deleted":
+            keep = extra
+            if [A[k] for k in keep] != B:
+                bad.append((lines[ia], "deleting absent events changed later outputs"))
+    return bad
+
+
+# ------------------------------------------------------------------------------------------- C04
+def scale_tok(tok, k):
+    """multiply the f32 payload of an Output<f> token by 2^k (exact)"""
+    if tok.startswith("S@"):
+        _, t, v = tok.split("@", 2)
+        return "S@%s@%s" % (t, f2h(h2f(v) * (2.0 ** k)))
+    return tok
+
+
+def gen_C04(rng, tier):
+    L = []
+    rel = []
+    maxn = n_of(tier, 64, 256)
+    for evs in all_histories(rng, 4, mkf):
+        L.append("ss pid %s %s %s %s %s" % (mkf(rng), rand_f(rng, -3, 3), rand_f(rng, -3, 3), rand_f(rng, -3, 3), " ".join(evs)))
+    for _ in range(n_of(tier, 400, 3000)):
+        n = rng.randint(2, maxn)
+        w = rng.choice([(0.9, 0.04, 0.03, 0.03), (1.0, 0, 0, 0), (0.7, 0.12, 0.09, 0.09)])
+        evs = history(rng, n, mkf, weights=w)
+        sp, kp, ki, kd = mkf(rng), rand_f(rng, -3, 3), rand_f(rng, -3, 3), rand_f(rng, -3, 3)
+        ia = len(L)
+        L.append("ss pid %s %s %s %s %s" % (sp, kp, ki, kd, " ".join(evs)))
+        c = rng.randint(-10 ** 15, 10 ** 15)
+        rel.append(("shift", ia, len(L), c))
+        L.append("ss pid %s %s %s %s %s" % (sp, kp, ki, kd, " ".join(shift_tok(e, c) for e in evs)))
+        k = rng.randint(-8, 8)
+        rel.append(("scale", ia, len(L), k))
+        L.append("ss pid %s %s %s %s %s" % (f2h(h2f(sp) * 2.0 ** k), kp, ki, kd, " ".join(scale_tok(e, k) for e in evs)))
+    RELATIONS["C04"] = rel
+    return L
+
+
+def oracle_C04(lines, impl):
+    bad = []
+    for (kind, ia, ib, extra) in RELATIONS.get("C04", []):
+        if ia >= len(impl) or ib >= len(impl) or "PANIC" in impl[ia] or "PANIC" in impl[ib]:
+            continue
+        A, B = impl[ia].split(" "), impl[ib].split(" ")
+        if kind == "shift":
+            if [shift_tok(get_part(t), extra) for t in A] != [get_part(t) for t in B] or [t.split("/")[0] for t in A] != [t.split("/")[0] for t in B]:
+                bad.append((lines[ia], "output changed under a constant shift of all timestamps by %d" % extra))
+        elif kind == "scale":
+            for ta, tb in zip(A, B):
+                ga, gb = get_part(ta), get_part(tb)
+                if ga.startswith("S@") and gb.startswith("S@"):
+                    va, vb = h2f(ga.split("@")[2]), h2f(gb.split("@")[2])
+                    exp = va * 2.0 ** extra
+                    if va == va and abs(exp) < 1e30 and (abs(va) > 1e-30 or va == 0) and f2h(exp) != f2h(vb) and not (exp == 0 and vb == 0):
+                        bad.append((lines[ia], "scaling setpoint and inputs by 2^%d did not scale the output exactly: %r vs %r" % (extra, exp, vb)))
+                        break
+                elif ga != gb:
+                    bad.append((lines[ia], "category changed under power-of-two scaling"))
+                    break
+    return bad
+
+
+# ------------------------------------------------------------------------------------------- C10
+def gen_C10(rng, tier):
+    L = []
+    rel = []
+    maxn = n_of(tier, 64, 128)
+
+    def signal(mm, s):
+        # nonlinear signal so that rectangle != trapezoid and first != second differences
+        a, b, c = rng.uniform(-3, 3), rng.uniform(-3, 3), rng.uniform(-3, 3)
+        st = {"i": 0}
+        def mk(r):
+            st["i"] += 1
+            x = st["i"] * 0.37
+            return q(f2h(a * x * x + b * math.sin(x) + c + r.uniform(-0.5, 0.5)), mm, s)
+        return mk
+    for name, (mm, s) in (("int", (None, None)), ("drv", (None, None)), ("a2s", (1, -2)), ("v2s", (1, -1)), ("p2s", (1, 0))):
+        units = GRID if mm is None else [(mm, s)]
+        for (um, us) in units:
+            for _ in range(n_of(tier, 6, 30) if mm is None else n_of(tier, 200, 1500)):
+                n = rng.randint(2, maxn)
+                w = rng.choice([(1.0, 0, 0, 0), (0.85, 0.07, 0.04, 0.04)])
+                evs = history(rng, n, signal(um, us), weights=w)
+                ia = len(L)
+                L.append("ss %s %s" % (name, " ".join(evs)))
+                c = rng.randint(-10 ** 15, 10 ** 15)
+                rel.append(("shift", ia, len(L), c))
+                L.append("ss %s %s" % (name, " ".join(shift_tok(e, c) for e in evs)))
+        if mm is not None:
+            # wrongly dimensioned input must panic (checking enabled)
+            for (um, us) in GRID:
+                evs = history(rng, 3, signal(um, us), weights=(1.0, 0, 0, 0))
+                L.append("ss %s %s" % (name, " ".join(evs)))
+        for evs in all_histories(rng, 4, signal(*(units[0] if mm is not None else (1, 0)))):
+            L.append("ss %s %s" % (name, " ".join(evs)))
+    # unit changes mid-stream in integral/derivative (prev + cur panics)
+    L.append("ss int S@0@Q:3f800000:1,0 S@1000000000@Q:3f800000:1,-1")
+    L.append("ss drv S@0@Q:3f800000:1,0 S@1000000000@Q:3f800000:1,-1")
+    RELATIONS["C10"] = rel
+    return L
+
+
+def oracle_shift(pid):
+    def orc(lines, impl):
+        bad = []
+        for (kind, ia, ib, extra) in RELATIONS.get(pid, []):
+            if kind != "shift" or ia >= len(impl) or ib >= len(impl) or "PANIC" in impl[ia] or "PANIC" in impl[ib]:
+                continue
+            A, B = impl[ia].split(" "), impl[ib].split(" ")
+            if [shift_tok(get_part(t), extra) for t in A] != [get_part(t) for t in B]:
+                bad.append((lines[ia], "output changed under a constant shift of all timestamps by %d" % extra))
+        return bad
+    return orc
+
+
+# ------------------------------------------------------------------------------------------- C11
+def gen_C11(rng, tier):
+    L = []
+    maxn = n_of(tier, 48, 96)
+    for kind in "PVA":
+        # exhaustive short input histories (present/absent/error) for each kind
+        for evs in all_histories(rng, 4, mkstate):
+            L.append("ss cpid %s%s %s %s" % (kind, mkf(rng), K9(rng), " ".join("in:" + e for e in evs)))
+        for _ in range(n_of(tier, 300, 2500)):
+            cmd = kind + mkf(rng)
+            cur = cmd
+            t = rng.randint(-10 ** 12, 10 ** 12)
+            evs = []
+            for _ in range(rng.randint(3, maxn)):
+                r = rng.random()
+                if r < 0.62:
+                    t += log_dt(rng)
+                    evs.append("in:S@%d@%s" % (t, mkstate(rng)))
+                elif r < 0.68:
+                    evs.append("in:N")
+                elif r < 0.74:
+                    evs.append("in:" + rng.choice(["E1", "E2"]))
+                elif r < 0.80:
+                    evs.append("set:" + cur)                       # same command: no-op
+                elif r < 0.86:
+                    cur = rng.choice("PVA") + mkf(rng)             # different command: restart
+                    evs.append("set:" + cur)
+                elif r < 0.90:
+                    c2 = rng.choice([cur, rng.choice("PVA") + mkf(rng)])
+                    evs.append("fol:" + rng.choice(["S@%d@%s" % (t, c2), "N", "E1"]))
+                    if True:
+                        pass
+                elif r < 0.94:
+                    c2 = rng.choice([cur, rng.choice("PVA") + mkf(rng)])
+                    evs.append("cs:" + rng.choice(["S@%d@%s" % (t, c2), "N", "E2"]))
+                elif r < 0.96:
+                    evs.append("unfol")
+                elif r < 0.98:
+                    evs.append("lr")
+                else:
+                    evs.append("reset")
+            L.append("ss cpid %s %s %s" % (cmd, K9(rng), " ".join(evs)))
+    # NaN command: `command != self.command` is always true
+    L.append("ss cpid P7fc00000 %s in:S@1@%s set:P7fc00000 in:S@2@%s in:S@3@%s" % (K9(rng), mkstate(rng), mkstate(rng), mkstate(rng)))
+    return L
+
+
+# ------------------------------------------------------------------------------------------- C12
+def gen_C12(rng, tier):
+    L = []
+    maxn = n_of(tier, 64, 128)
+    windows = [1, 2, 1000, 999_999_999, 1_000_000_000, 1_500_000_000, 60 * 10 ** 9, 7200 * 10 ** 9]
+    smooth = ["00000000", "3f800000", f2h(0.5), f2h(0.25), f2h(0.9), f2h(0.01)]
+    for ty, mk in (("f", mkf), ("q", mkq(1, -1))):
+        for evs in all_histories(rng, 4, mk):
+            L.append("ss ma %s %d %s" % (ty, rng.choice(windows), " ".join(evs)))
+            L.append("ss ewma %s %s %s" % (ty, rng.choice(smooth), " ".join(evs)))
+        for _ in range(n_of(tier, 300, 2500)):
+            n = rng.randint(2, maxn)
+            w = rng.choice([(1.0, 0, 0, 0), (0.85, 0.07, 0.04, 0.04)])
+            dtf = rng.choice([None, lambda r: r.choice([1, 10 ** 6, 10 ** 9, 2 * 10 ** 9]), lambda r: r.randint(1, 3 * 10 ** 9)])
+            evs = history(rng, n, mk, weights=w, dt=dtf, repeat_ts=True)
+            win = rng.choice(windows + [rng.randint(1, 10 ** 10)])
+            L.append("ss ma %s %d %s" % (ty, win, " ".join(evs)))
+            sm = rng.choice(smooth + [f2h(rng.uniform(0, 1))])
+            L.append("ss ewma %s %s %s" % (ty, sm, " ".join(evs)))
+        # constant input
+        for _ in range(n_of(tier, 30, 200)):
+            v = mk(rng)
+            t = 0
+            evs = []
+            for _ in range(rng.randint(2, 20)):
+                t += log_dt(rng)
+                evs.append("S@%d@%s" % (t, v))
+            L.append("ss ma %s %d %s" % (ty, rng.choice(windows), " ".join(evs)))
+            L.append("ss ewma %s %s %s" % (ty, rng.choice(smooth), " ".join(evs)))
+    return L
+
+
+def payload_f(tok):
+    """f32 value of an Output token with f or q payload, or None"""
+    if not tok.startswith("S@"):
+        return None
+    v = tok.split("@", 2)[2]
+    if v.startswith("Q:"):
+        v = v.split(":")[1]
+    return h2f(v)
+
+
+def oracle_C12(lines, impl):
+    """range/convexity on the implementation's own numbers; no panic for positive windows"""
+    bad = []
+    for c, o in zip(lines, impl):
+        if not (c.startswith("ss ma ") or c.startswith("ss ewma ")):
+            continue
+        if "PANIC" in o:
+            bad.append((c, "update panicked: " + o.split(" ")[-1]))
+            continue
+        parts = c.split(" ")
+        evs = parts[4:]
+        toks = o.split(" ")
+        lo = hi = None
+        for e, t in zip(evs, toks):
+            if e in ("E1", "E2"):
+                lo = hi = None
+                continue
+            x = payload_f(e)
+            if x is None:
+                continue
+            lo = x if lo is None else min(lo, x)
+            hi = x if hi is None else max(hi, x)
+            y = payload_f(get_part(t))
+            if y is None or y != y:
+                continue
+            tol = 1e-3 * max(abs(lo), abs(hi), 1e-3)
+            if not (lo - tol <= y <= hi + tol):
+                bad.append((c, "output %r outside the range [%r, %r] of the contributing samples" % (y, lo, hi)))
+                break
+    return bad
+
+
+GENERATORS.update({"C05": gen_C05, "C04": gen_C04, "C10": gen_C10, "C11": gen_C11, "C12": gen_C12})
